@@ -115,9 +115,15 @@ def gen_recent_case(rng: random.Random, tier: str, backends=('dict',)) -> dict:
                              'mailbox': 'INBOX', 'literal': 'litplus',
                              'msgs': _msgs(rng, tokens, 1)})
             elif r < 0.6:
-                acts.append({'sess': sess, 'kind': 'copy',
-                             'uid': False, 'set': seq_set(rng, 4),
+                # (MOVE into the selected mailbox itself: a new UID for the
+                # same file, the message arrives a second time)
+                acts.append({'sess': sess,
+                             'kind': rng.choice(['copy', 'copy', 'move']),
+                             'uid': rng.random() < 0.3,
+                             'set': seq_set(rng, 4),
                              'mailbox': 'INBOX'})
+                if acts[-1]['uid']:
+                    acts[-1]['set'] = uid_set(rng, 101, 108)
             elif r < 0.75:
                 acts.append({'sess': sess, 'kind': 'store',
                              'uid': rng.random() < 0.4,
